@@ -17,6 +17,7 @@ RULE = ("FULL product over (n_in 1..4 [thorough 1..8], n_out 1..4 [1..8], EVERY 
 ASSUMPTIONS = ["vf/ref/bip143_ref.py transcribes BIP143; scriptCode is passed pre-serialised as the function's contract takes it"]
 OBLIGATIONS = {
     "history_sequences": "operation sequences (non-initial process states) explored",
+    "long_structure": "a transaction with more than 1000 inputs or outputs",
     "single_index_ge_outputs": "SIGHASH_SINGLE with input index >= number of outputs",
     "single_index_lt_outputs": "SIGHASH_SINGLE with a matching output",
     "anyonecanpay": "an ANYONECANPAY flag", "signed_input_scriptsig_nonempty": "the signed input has a non-empty scriptSig",
@@ -116,9 +117,19 @@ def seq_ops(job):
     return ops
 
 
+def long_cases(seed):
+    """transactions with more than a thousand inputs / outputs (every index class, all flags)"""
+    a0 = {k: v[0] for k, v in dims().items()}
+    for n_in, n_out in ((1100, 2), (3, 1100), (1100, 1100)):
+        for idx in sorted({0, 1, n_in // 2, n_in - 1, min(n_in - 1, n_out), min(n_in - 1, max(0, n_out - 1))}):
+            for flag in FLAGS:
+                yield {"seed": seed, "n_in": n_in, "n_out": n_out, "index": idx, "flag": flag, "a": dict(a0, seq="mixed")}
+
+
 def jobs(tier, seed):
     from vf.runner import seq_jobs
-    return [{"name": f"msg/{sh}", "part": "msg", "shard": [sh, 16], "weight": 5} for sh in range(16)] + seq_jobs(2, weight=2)
+    return [{"name": f"msg/{sh}", "part": "msg", "shard": [sh, 16], "weight": 5} for sh in range(16)] + seq_jobs(2, weight=2) + \
+        [{"name": "long", "part": "long", "weight": 4}]
 
 
 def run_job(job):
@@ -127,6 +138,14 @@ def run_job(job):
         return run_seq_job(job, seq_ops(job), run_case)
     acc = Acc(job)
     seed, tier = job["seed"], job["tier"]
+    if job["part"] == "long":
+        for case in long_cases(seed):
+            acc.evaluations += 1
+            acc.nontrivial += 1
+            acc.ob("long_structure")
+            acc.check("msg", case, chk_msg)
+        acc.sample({"long": "1100 inputs / outputs"})
+        return acc.result()
     N = 4 if tier == "quick" else 8
     d = 2 if tier == "quick" else 3
     sh, nsh = job["shard"]
